@@ -249,6 +249,12 @@ static void handoff(const Oct &bytes, const char *what) {
   std::string p = handoff_dir() + "/c20-" + what + "-" + hkey(bytes) + ".bin"; struct stat st; if (stat(p.c_str(), &st) == 0) return;
   std::string t = p + ".tmp" + std::to_string(getpid()); { std::ofstream f(t, std::ios::binary); f.write((const char *)bytes.data(), bytes.size()); } rename(t.c_str(), p.c_str());
 }
+// with C20_EXPORT_DIR set, valid artefacts (signature packets, key blocks, encrypted messages) are written out as seed inputs for the
+// C12 fuzz campaigns (a maintainer refreshes /verif/corpus/C12/handoff with them; the checks themselves never read that variable)
+static void export_artefact(const char *kind, const Oct &bytes) {
+  static const char *dir = getenv("C20_EXPORT_DIR"); if (!dir || g_in_child) return; static std::map<std::string, int> n; if (n[kind]++ >= 6) return;
+  std::string p = std::string(dir) + "/valid-" + kind + "-" + hkey(bytes) + ".bin"; std::ofstream f(p, std::ios::binary); f.write((const char *)bytes.data(), bytes.size());
+}
 enum { F_REFUSED = 0, F_CRASHED = 0xFE, F_TIMEOUT = 0xFD, F_UNSET = 0xFF };
 // Runs eval(i) for i in [0,n) inside forked children; eval returns a small result code (< 0xF0; 0 = refused).
 // A child that dies at fault i is restarted at i+1.  `input(i)` gives the bytes that were fed to the parser (for the C12 hand-off).
@@ -416,6 +422,7 @@ VF_SUB(sig_document_roundtrip_and_flips, 112, 6000) {
     if (id != kid) ctx.fail("keyid/keyid-differs-from-rfc4880", "KeyidCompute " + hexs(kid) + " != " + hexs(id)); }
 
   DocSig S = make_docsig(k, version, text, h, sigtime, exptime, policy, issuer, data);
+  if (S.ok) export_artefact((std::string("sig-") + algo_name(k.algo)).c_str(), S.pkt);
   if (!S.ok) { ctx.fail("sig/" + A + "/library-cannot-sign", S.err + " for " + d.str()); return; }
   if (version == 4) { Oct mine = my_doc_hash_v4(h, text, data, S.trailer);
     if (mine != S.hash) ctx.fail(std::string("hash/document/") + (text ? "text" : "binary") + "-differs-from-rfc4880", "library hash " + hexs(S.hash, 64) + ", RFC 4880 5.2.4 gives " + hexs(mine, 64) + " for " + d.str()); }
@@ -603,6 +610,7 @@ VF_SUB(sig_certification_and_key_signatures, 80, 3000) {
   if (sp.direct) ctx.label("with-direct-key-signature"); if (sp.certifier) ctx.label("with-third-party-certification");
   Block B = build_block(sp);
   if (!B.ok) { ctx.fail("cert/" + A + "/library-cannot-build-block", B.err + " for " + d.str()); return; }
+  export_artefact((std::string("keyblock-") + A).c_str(), B.all);
   for (auto &w : B.oracle_diffs) ctx.fail("hash/" + w + "/differs-from-rfc4880", "the library's hash input for a " + w + " signature differs from RFC 4880 5.2.4: " + d.str());
   ctx.nontrivial(d.str() + hkey(B.all));
   std::unique_ptr<TMCG_OpenPGP_Pubkey> cko; gcry_sexp_t ckey = nullptr;
@@ -803,7 +811,7 @@ VF_SUB(sym_mdc_roundtrip_and_flips, 128, 5000) {
     Oct mdcpkt; size_t bs = gcry_cipher_get_algo_blklen(gc_cipher(algo)); Oct hin(rnd.begin(), rnd.begin() + bs); hin.push_back(hin[bs - 2]); hin.push_back(hin[bs - 1]); app(hin, lit); hin.push_back(0xD3); hin.push_back(0x14);
     mdcpkt.push_back(0xD3); mdcpkt.push_back(0x14); app(mdcpkt, H(2, hin)); litmdc = cat(lit, mdcpkt);
   }
-  Oct pkt; PGP::PacketSeipdEncode(enc, pkt); ctx.desc << d.str(); ctx.nontrivial(d.str() + hkey(pkt));
+  Oct pkt; PGP::PacketSeipdEncode(enc, pkt); ctx.desc << d.str(); ctx.nontrivial(d.str() + hkey(pkt)); export_artefact("seipd", pkt);
   // ---- positive
   TMCG_OpenPGP_Message *msg = nullptr; if (!PGP::MessageParse(pkt, 0, msg)) { ctx.fail("sym/mdc/untouched-message-unparsable", d.str()); return; }
   std::unique_ptr<TMCG_OpenPGP_Message> M(msg);
@@ -886,7 +894,7 @@ static AeadMsg make_aead(int skalgo, int aead, int c, const Oct &lit) {
   AeadMsg A; A.skalgo = skalgo; A.aead = aead; A.c = c; A.cd = (size_t)1 << (c + 6); A.lit = lit;
   gcry_error_t e = PGP::SymmetricEncryptAEAD(lit, A.key, (tmcg_openpgp_skalgo_t)skalgo, (tmcg_openpgp_aeadalgo_t)aead, (tmcg_openpgp_byte_t)c, aead_ad(skalgo, aead, c), 0, A.iv, A.enc);
   if (e) { A.err = gcry_strerror(e); return A; }
-  PGP::PacketAeadEncode((tmcg_openpgp_skalgo_t)skalgo, (tmcg_openpgp_aeadalgo_t)aead, (tmcg_openpgp_byte_t)c, A.iv, A.enc, A.pkt); A.ok = true; return A;
+  PGP::PacketAeadEncode((tmcg_openpgp_skalgo_t)skalgo, (tmcg_openpgp_aeadalgo_t)aead, (tmcg_openpgp_byte_t)c, A.iv, A.enc, A.pkt); A.ok = true; export_artefact(aead == 1 ? "aead-eax" : "aead-ocb", A.pkt); return A;
 }
 static Oct literal_of_total_length(Ctx &ctx, size_t want, Oct &data) { // literal packet: header 8 (body < 192), 9 or 12 octets
   for (size_t hdr : {(size_t)8, (size_t)9, (size_t)12}) { if (want < hdr) continue; data = gen_binary_doc(ctx, want - hdr); Oct lit; PGP::PacketLitEncode(data, lit); if (lit.size() == want) return lit; }
@@ -1019,7 +1027,7 @@ VF_SUB(pkesk_roundtrip, 80, 3000) {
   std::ostringstream d; d << k.name << (wildcard ? " wildcard-keyid" : " keyid") << (aead ? " + AEAD(OCB)" : " + SEIPD") << " plaintext=" << lcls << "(" << data.size() << ")"; ctx.desc << d.str();
   ctx.label("recipient:" + A); ctx.label(aead ? "data:aead" : "data:seipd"); ctx.label(wildcard ? "keyid:wildcard" : "keyid:set");
   if (e) { ctx.fail("pkesk/" + A + "/library-cannot-encrypt", std::string(gcry_strerror(e)) + " " + d.str()); return; }
-  Oct msgb = cat(pkesk, encpkt); ctx.nontrivial(d.str() + hkey(msgb));
+  Oct msgb = cat(pkesk, encpkt); ctx.nontrivial(d.str() + hkey(msgb)); export_artefact((std::string("pkesk-") + A).c_str(), msgb);
   // 0 refused; 1 original plaintext; 2 other plaintext; 3 session key recovered but data refused
   auto eval = [&](const Oct &bytes, bool want_key_only) -> unsigned char {
     TMCG_OpenPGP_Message *msg = nullptr; if (!PGP::MessageParse(bytes, 0, msg)) return 0; unsigned char r = 0;
